@@ -212,3 +212,19 @@ def main_wrapper(fn):
         print("MACHINERY-FAILURE: unexpected exception in the harness")
         sys.exit(2)
     sys.exit(rc)
+
+
+def batches(items, weight, limit=25000):
+    """split a list of traces into batches whose total weight (number of trace-spec steps) stays below `limit`:
+    a batch is one TLC behaviour and TLC cannot handle behaviours of 65,536 or more states"""
+    out, cur, size = [], [], 0
+    for it in items:
+        w = weight(it)
+        if cur and size + w > limit:
+            out.append(cur)
+            cur, size = [], 0
+        cur.append(it)
+        size += w
+    if cur:
+        out.append(cur)
+    return out
